@@ -108,6 +108,36 @@ fn run(rng: &mut Rng, _idx: u64, tier: Tier) -> CaseOut {
             return out;
         }
     }
+    // the same equivalences inside ONE formula (both operand orders of <=>: the strong and the weak operator over
+    // the same operands meet in one evaluation context) and as a batch of two formulae
+    for (l, r, sig) in &pairs {
+        for (x, y) in [(l, r), (r, l)] {
+            let iff = format!("({x} <=> {y})");
+            let Some(s) = ev(&iff) else {
+                out.violate("identity evaluation failed", format!("library failed to evaluate `{iff}`"), case_json(&world, &[iff.clone()], vec![]));
+                return out;
+            };
+            out.count("identity_checks_in_one_formula");
+            if &s != unit {
+                violate_diff(&mut out, &world, &sys, &format!("{sig} (inside one formula)"), (&iff, &s), ("True", unit), vec![]);
+                return out;
+            }
+        }
+        let batch = if rng.coin() { vec![l.as_str(), r.as_str()] } else { vec![r.as_str(), l.as_str()] };
+        match call(|| biodivine_hctl_model_checker::model_checking::model_check_multiple_formulae_dirty(batch.clone(), &sys.graph)) {
+            Call::Ok(res) if res.len() == 2 => {
+                out.count("identity_checks_in_one_batch");
+                if res[0].intersect(unit) != res[1].intersect(unit) {
+                    violate_diff(&mut out, &world, &sys, &format!("{sig} (as a batch)"), (batch[0], &res[0]), (batch[1], &res[1]), vec![]);
+                    return out;
+                }
+            }
+            _ => {
+                out.violate("identity evaluation failed", format!("library failed to evaluate the batch {batch:?}"), case_json(&world, &[l.clone(), r.clone()], vec![]));
+                return out;
+            }
+        }
+    }
     for op in ["EW", "AW"] {
         let w = format!("({a} {op} {b})");
         let (Some(ws), Some(bs)) = (ev(&w), ev(&b)) else {
